@@ -250,11 +250,21 @@ def public(it):
 MAX_RUNS = 400          # per section: keeps events small and TLC's recursion shallow
 
 
-def gen_image_lines(r, L, bt, size, sizes="mix"):
+def const_image(bt, size, ln):
+    """image 0..size-1 cut into lines of constant size ln WITHOUT regard to pages: a line that starts in page n may end in
+    page n+1 (flat address = page * 65536 + offset; the next line then has tag type +1 and a non-zero offset)"""
+    return [(bt + (a >> 16), a & 0xFFFF, min(ln, size - a)) for a in range(0, size, ln)]
+
+
+def gen_image_lines(r, L, bt, size, sizes="mix", straddle=None):
     """contiguous image 0..size-1 from tag type bt on, as a list of single lines (ty, offs, len) in address order.
-    Lines come in stretches of equal length (they become one symbolic run); no line crosses a 64 KiB page."""
+    Lines come in stretches of equal length (they become one symbolic run).  straddle=False: every line is cut at the end
+    of its 64 KiB page (a writer that works page by page); True: lines are cut by size only, so a line may start in one
+    page and end in the next; None: either, at random."""
     out, a, nruns = [], 0, 0
     uni = r.randrange(1, 251)
+    if straddle is None:
+        straddle = r.random() < 0.5
     while a < size:
         if sizes == "uniform" or nruns >= MAX_RUNS:
             ln, rep = (uni if sizes == "uniform" else 250), 1 << 30
@@ -268,9 +278,10 @@ def gen_image_lines(r, L, bt, size, sizes="mix"):
         nruns += 1
         while rep > 0 and a < size:
             page, offs = divmod(a, 0x10000)
-            l2 = min(ln, size - a, 0x10000 - offs)
+            room = (1 << 30) if straddle else 0x10000 - offs
+            l2 = min(ln, size - a, room)
             if not L.plan(l2):
-                l2 = min(3, size - a, 0x10000 - offs)
+                l2 = min(3, size - a, room)
                 if l2 < 3:                               # no unique short line left: the image ends here
                     return out
             if l2 != ln:
@@ -480,8 +491,10 @@ def gen_file(r, tier="quick", big=None, small=False):
             sizes = r.choice(["mix", "mix", "uniform", "small", "big"])
             if small:
                 size, sizes = r.choice([1, 2, 3, 7, 20, 45]), r.choice(["small", "small", "mix"])
-            elif PAGES.get(bt, 1) > 1 and r.random() < 0.12:
+            elif PAGES.get(bt, 1) > 1 and r.random() < 0.15:
                 size = 0x10000 + r.choice([-300, -1, 0, 1, 2, 251, 900])
+                if PAGES.get(bt, 1) > 2 and r.random() < 0.3:
+                    size += 0x10000                      # two page boundaries
                 sizes = r.choice(["big", "mix"])
         lines = gen_image_lines(r, L, bt + (1 if nonbase else 0), size, sizes)
         if defect and r.random() < 0.45:
@@ -606,9 +619,10 @@ def gen_direct(r, big=None):
     else:
         size = r.choice([1, 2, 5, 12, 40, 300, 1000, 2500])
         sizes = r.choice(["mix", "uniform", "small", "big"])
-        if PAGES[bt] > 1 and r.random() < 0.1:
-            size = 0x10000 + r.choice([-1, 0, 1, 300])
-            sizes = "big"
+        if PAGES[bt] > 1 and r.random() < 0.15:
+            size = 0x10000 * r.choice([1, 1, 2]) + r.choice([-1, 0, 1, 300])
+            size = min(size, PAGES[bt] * 0x10000)
+            sizes = r.choice(["big", "big", "uniform"])
     lines = gen_image_lines(r, L, bt, size, sizes)
     lines = damage(r, lines, r.choice(["none", "nz", "gap-before-last", "gap-mid", "gaps", "gaps", "two-single-blocks", "swap"]))
     return L, to_runs(L, lines)
